@@ -15,9 +15,24 @@ TAKES_START = {"modularity_finetune_und", "modularity_finetune_dir", "modularity
                "modularity_probtune_und_sign", "community_louvain"}
 
 
+def _typed(job, W):
+    """the matrix as the caller might hold it (integer types, Fortran order); values unchanged"""
+    dt = job.get("dtype")
+    if dt:
+        W = W.astype({"int": int}.get(dt, dt))
+    if job.get("layout") == "F":
+        W = np.asfortranarray(W)
+    return W
+
+
 def _call(bct, job, rng, start):
     fn = job["fn"]
-    W = np.array(job["W"], dtype=float)
+    W = _typed(job, np.array(job["W"], dtype=float))
+    if start is not None and job.get("start_type"):
+        start = {"list": list, "float": lambda c: np.array(c, dtype=float),
+                 "int32": lambda c: np.array(c, dtype=np.int32)}[job["start_type"]](start)
+        if job["start_type"] == "list":
+            start = [int(x) for x in start]
     gamma = job["gn"] / job["gd"]
     f = getattr(bct, fn)
     if fn in ("modularity_louvain_und", "modularity_louvain_dir"):
@@ -25,11 +40,11 @@ def _call(bct, job, rng, start):
     if fn == "modularity_louvain_und_sign":
         return f(W, gamma=gamma, qtype=job["qtype"], seed=rng)
     if fn in ("modularity_finetune_und", "modularity_finetune_dir"):
-        return f(W, ci=None if start is None else np.array(start), gamma=gamma, seed=rng)
+        return f(W, ci=None if start is None else np.asarray(start), gamma=gamma, seed=rng)
     if fn in ("modularity_finetune_und_sign", "modularity_probtune_und_sign"):
-        return f(W, qtype=job["qtype"], gamma=gamma, ci=None if start is None else np.array(start), seed=rng)
+        return f(W, qtype=job["qtype"], gamma=gamma, ci=None if start is None else np.asarray(start), seed=rng)
     if fn == "community_louvain":
-        return f(W, gamma=gamma, ci=None if start is None else np.array(start), B=job["objective"], seed=rng)
+        return f(W, gamma=gamma, ci=None if start is None else np.asarray(start), B=job["objective"], seed=rng)
     if fn in ("modularity_und", "modularity_dir"):
         return f(W, gamma=gamma)
     raise ValueError(fn)
